@@ -109,6 +109,7 @@ type Exec struct {
 	rtErrT    types.Type
 	syncMaps  map[*Value]*MapV
 	inMerge   int
+	panicFn   string
 	mergeCond *Term
 	mergeFail map[*ssa.If]int
 }
@@ -125,6 +126,7 @@ func (e *Exec) endPath(status, msg string) { panic(pathEnd{status, msg}) }
 
 func (e *Exec) targetPanicStr(msg string) {
 	msg = strings.TrimPrefix(msg, "runtime error: ")
+	e.panicFn = e.where()
 	var v Value = Iface{t: e.rtErrT, v: e.mkStr(msg)}
 	panic(targetPanic{v})
 }
@@ -559,6 +561,7 @@ func (fr *frame) visit(instr ssa.Instruction) continuation {
 	case *ssa.RunDefers:
 		fr.runDefers()
 	case *ssa.Panic:
+		e.panicFn = e.where()
 		panic(targetPanic{fr.get(instr.X)})
 	case *ssa.Store:
 		e.store(fr.get(instr.Addr).(Ptr), fr.get(instr.Val))
